@@ -368,7 +368,50 @@ def check_relaxation(rep, prog):
                             pc_ = cfg.pos_of(c)
                             if not any(cfg.pos_of(mk) and cfg.pos_of(mk)[0] == pc_[0] for mk in marks):
                                 unmarked = c
-                    if unmarked is not None:
+                    # every store of a (new or lowered) label is accompanied, in the same block, by the matching priority-queue operation for that
+                    # vertex: push for a new vertex, update / decrease for a lowered key - otherwise the heap order is stale and a vertex is popped early
+                    noqueue = None
+                    if not bfs:
+                        seen_blocks = set()
+                        for c in group:
+                            pc_ = cfg.pos_of(c)
+                            if not pc_ or pc_[0] in seen_blocks:
+                                continue
+                            seen_blocks.add(pc_[0])
+                            qblocks = set(cfg.pos_of(d)[0] for d in fn.walk() if d.k == 'CXXMemberCallExpr' and d.callee and
+                                          d.callee['name'] in ('push', 'update', 'decrease', 'increase', 'emplace') and d.args() and ex.key(d.args()[0]) == wk and cfg.pos_of(d))
+                            # every path from the store on reaches a queue operation for this vertex before the iteration ends
+                            lp_ = c.enclosing('ForStmt', 'WhileStmt', 'DoStmt', 'CXXForRangeStmt')
+                            body_blocks = set()
+                            for d in ((lp_.body.walk() if lp_ is not None and lp_.body is not None else fn.walk())):
+                                pp_ = cfg.positions().get(d.i)
+                                if pp_:
+                                    body_blocks.add(pp_[0])
+                            okq = True
+                            seen_, work_ = set(), [pc_[0]]
+                            while work_:
+                                b_ = work_.pop()
+                                if b_ in seen_ or b_ in qblocks:
+                                    continue
+                                seen_.add(b_)
+                                succ_ = [x_ for x_ in cfg.blocks[b_].succ if x_ is not None]
+                                if not succ_:
+                                    okq = False
+                                for x_ in succ_:
+                                    if x_ not in body_blocks:
+                                        okq = False
+                                    else:
+                                        work_.append(x_)
+                            if pc_[0] in qblocks:
+                                okq = True
+                            if not okq:
+                                noqueue = c
+                    if noqueue is not None:
+                        rep.violation('R02h', noqueue, fn, what,
+                                      'a label is stored at line %d without the matching priority-queue operation (push / update) for that vertex in the same block: '
+                                      'the heap keeps the old key, the vertex is popped too early or never re-positioned and its descendants keep wrong distances' % noqueue.line,
+                                      key='R02h|%s|no-queue-op' % fn.g)
+                    elif unmarked is not None:
                         rep.violation('R02h', unmarked, fn, what,
                                       'the label is stored under `not visited`, but the visited flag of that vertex is not set where the label is stored (it is set '
                                       'elsewhere, e.g. when the vertex is dequeued): a queued vertex is relabelled by a later neighbour and its hop distance grows',
